@@ -204,6 +204,27 @@ ALPHABET = ['[', ']', '(', ')', ',', '!', '.', ':', '=', '@', '#', '"', '*', ' '
 CORE = ['(', ')', '[', ']', ',', '!', '=', '"', 'a', '0', 'x', '.', ':', '@']      # the structural core of the matcher alphabet, for one symbol more
 
 
+def argument_texts(ctx, case):
+    """the argument text between the parentheses of a message line is arbitrary (quotes that never close, backslashes at the end, lone commas):
+    the real splitter terminates on it, loses no character, and the real argument decoder answers for every piece"""
+    from backends.libwayland_debug_output import parse
+    n = case
+    chars = [ctx.fresh_int('c%d' % k, 32, 127) for k in range(n)]
+    if ctx.symbolic:
+        text = symx.SWord(list(chars), 'args')
+    else:
+        text = ''.join(chr(c) for c in chars)
+    got = parse.argument_list_strs(text)
+    ctx.check('the splitter returns a list of pieces', isinstance(got, list))
+    total = sum(len(g) for g in got)
+    ctx.check('no character is lost or invented: pieces + separators cover the text', total + 2 * max(0, len(got) - 1) <= n and total + 2 * len(got) >= n)
+    if not ctx.symbolic:
+        p = parse.WlPatterns.lazy_get_instance()
+        for g in got:
+            a = parse.argument(p, g)
+            ctx.check('every piece decodes to some argument (Unknown at worst)', a is not None)
+
+
 def short_texts(ctx, case):
     """all strings of <= n symbols: matcher.parse accepts or raises RuntimeError; every command built from them answers"""
     import logging
@@ -258,6 +279,8 @@ def obligations(tier):
     return [
         Ob('handler-structure', 'symx', 'parse_all/cleanup under every pattern of decoder and sink failures', FUNCS[:3], '<= 3 lines x 8 behaviours each (exhaustive)', handlers, cases=[0, 1, 2, 3],
            stubs=['parse.message and the sink replaced by failing stubs']),
+        Ob('argument-texts', 'symx', 'argument_list_strs (and end_of_str) on ARBITRARY argument texts with symbolic characters: terminates, loses nothing', FUNCS[:1] + ['backends.libwayland_debug_output.parse:argument_list_strs', 'backends.libwayland_debug_output.parse:end_of_str'],
+           'every text of <= %d characters, each any of 32..126' % (8 if tier == 'quick' else 11), argument_texts, cases=list(range(0, 9 if tier == 'quick' else 12))),
         Ob('literal-inclusion', 'smt', 'regex groups handed to int()/float() are inside the builtins\' languages (any length)', FUNCS[3:5], 'strings of any length', literal_inclusion, cases=[None], replay=replay_literal),
         Ob('hostile-evaluation', 'symx', 'matchers of the C05 family evaluate and print on hostile argument values', FUNCS[7:], 'every %d-th of %d expressions x 15 hostile argument kinds x 3 targets' % (step, n_expr),
            hostile_evaluation, cases=list(range(0, n_expr, step))),
